@@ -81,6 +81,7 @@ func rulesC05(c *Ctx) {
 		"NOT decided: the arithmetic identities themselves (that computed reward/slash/fee splits sum to what is moved), supply equality at block boundaries over histories.")
 	c05Round2(c)
 	c05Round3(c)
+	c05Round4(c)
 	ix := c.P.BuildIndex()
 
 	// ---- (a) LEDGER discipline
